@@ -5,7 +5,7 @@
    a run compared byte-wise contains no alignment padding and at most one span, at its
    end, so its bytes are the concatenation of its fields' bytes. *)
 From Coq Require Import ZArith List Bool Lia.
-From Cntgs Require Import Base BaseLemmas Layout LayoutThm Mem MemLemmas Vector Proxy Spec Rep ElemLemmas
+From Cntgs Require Import Base BaseLemmas Layout LayoutThm Mem MemLemmas Vector Proxy Spec Rep ElemLemmas Ordered Refine
      CompareThm RunsThm ElemThm.
 Import ListNotations.
 Local Open Scope Z_scope.
@@ -269,3 +269,134 @@ Section TwoOperands.
         rewrite E. apply list_eqb_refl.
   Qed.
 End TwoOperands.
+
+(* ---------- lifted to vectors: references into vectors that represent lists of tuples ---------- *)
+Lemma Forall2_nth_ {X Y} (P : X -> Y -> Prop) : forall (l1 : list X) (l2 : list Y) d1 d2 i,
+  Forall2 P l1 l2 -> (i < length l1)%nat -> P (nth i l1 d1) (nth i l2 d2).
+Proof.
+  induction l1 as [|x l1 IH]; intros l2 d1 d2 i H Hi; [cbn [length] in Hi; lia|].
+  inversion H as [|? y ? l2' Hxy Hr]; subst. destruct i as [|i]; cbn [nth]; [exact Hxy|].
+  apply IH; [exact Hr|cbn [length] in Hi; lia].
+Qed.
+
+Section VectorLevel.
+  Variable L : list param.
+  Hypothesis Hwf : wf_plist L = true.
+
+  Let HF : Forall wfp L := wf_plist_Forall L Hwf.
+
+  Lemma rep_ref v l offs i : RepO L v l offs -> (i < length l)%nat ->
+    tuple_ok L (fixed_counts L (v_fixed v)) 0 (nth i l []) /\
+    elem_at L (v_mem v) (nth i offs 0) (nth i l []) /\
+    vfl L v (Z.of_nat i) = ref_fl L (nth i l []) (nth i offs 0).
+  Proof.
+    intros R Hi.
+    pose proof (eo_length _ _ _ _ _ (r_order _ _ _ _ R)) as Hlen.
+    assert (Ht : tuple_ok L (fixed_counts L (v_fixed v)) 0 (nth i l [])).
+    { pose proof (r_tuples _ _ _ _ R) as H. rewrite Forall_forall in H. apply H. apply nth_In. exact Hi. }
+    assert (He : elem_at L (v_mem v) (nth i offs 0) (nth i l [])).
+    { apply (Forall2_nth_ _ offs l 0 [] i (r_elems _ _ _ _ R)). lia. }
+    split; [exact Ht|]. split; [exact He|].
+    unfold vfl. rewrite (rep_eaddr L v l offs i R Hi). unfold load.
+    rewrite (load_from_spec L (prevs L) _ (v_mem v) _ (nth i l []) 0 0 false); auto.
+    - apply wf_plist_varying. exact Hwf.
+    - destruct L; auto.
+  Qed.
+
+  Theorem ref_equal_content v1 l1 v2 l2 i j : Rep L v1 l1 -> Rep L v2 l2 ->
+    (i < length l1)%nat -> (j < length l2)%nat ->
+    (ref_equal L v1 (Z.of_nat i) v2 (Z.of_nat j) = true <-> nth i l1 [] = nth j l2 []).
+  Proof.
+    intros [o1 R1] [o2 R2] Hi Hj.
+    destruct (rep_ref v1 l1 o1 i R1 Hi) as (Ht1 & He1 & Hf1).
+    destruct (rep_ref v2 l2 o2 j R2 Hj) as (Ht2 & He2 & Hf2).
+    unfold ref_equal. rewrite Hf1, Hf2.
+    eapply elem_equal_content; eauto.
+  Qed.
+
+  (* the element-wise path of vector == (four-iterator std::equal) *)
+  Theorem elems_equal_content v1 l1 v2 l2 : Rep L v1 l1 -> Rep L v2 l2 ->
+    (elems_equal L v1 v2 = true <-> l1 = l2).
+  Proof.
+    intros Rp1 Rp2. pose proof Rp1 as [o1 R1]. pose proof Rp2 as [o2 R2].
+    unfold elems_equal. rewrite (rep_vsize L v1 l1 o1 R1), (rep_vsize L v2 l2 o2 R2).
+    rewrite andb_true_iff, Z.eqb_eq, forallb_forall, Nat2Z.id. split.
+    - intros [Hlen Hall]. apply Nat2Z.inj in Hlen. apply (nth_ext _ _ [] []); [exact Hlen|].
+      intros i Hi. assert (Hi2 : (i < length l2)%nat) by (rewrite <- Hlen; exact Hi).
+      apply (ref_equal_content v1 l1 v2 l2 i i Rp1 Rp2 Hi Hi2).
+      apply Hall. apply in_seq. lia.
+    - intros ->. split; [reflexivity|]. intros i Hi. apply in_seq in Hi.
+      apply (ref_equal_content v1 l2 v2 l2 i i Rp1 Rp2); [lia|lia|reflexivity].
+  Qed.
+
+  (* vector ==, whenever it takes the element-wise path: lists whose value types are not all
+     memcmp-able or that may contain padding, or operands with different fixed sizes *)
+  Theorem vec_equal_content_elementwise v1 l1 v2 l2 : Rep L v1 l1 -> Rep L v2 l2 ->
+    (forallb eqm L && padfree L && list_eqb (v_fixed v1) (v_fixed v2)) = false ->
+    (vec_equal L v1 v2 = true <-> l1 = l2).
+  Proof.
+    intros R1 R2 Hc. unfold vec_equal. rewrite Hc. apply elems_equal_content; assumption.
+  Qed.
+End VectorLevel.
+
+Lemma forallb_ext_in_ {X} (f g : X -> bool) l : (forall x, In x l -> f x = g x) -> forallb f l = forallb g l.
+Proof.
+  induction l as [|x l IH]; intros H; [reflexivity|]. cbn [forallb].
+  rewrite (H x (or_introl eq_refl)), IH; [reflexivity|]. intros y Hy. apply H. right. exact Hy.
+Qed.
+
+(* ---------- operator< depends on the contents only (C14) ---------- *)
+(* the element-level < computed from the TUPLES alone: same run table, the bytes of a run are
+   the concatenated bytes of its fields *)
+Definition tuple_less_one (L : list param) (t1 t2 : tuple) (k : nat) : bool :=
+  match nth k (runs_lex L) RSkip with
+  | RSkip => true
+  | RManual => span_lt (pty (nth k L pparam0)) (nth k t1 []) (nth k t2 [])
+  | REnd e => lex_lt (concat (map (fb t1) (seq k (S (e - k))))) (concat (map (fb t2) (seq k (S (e - k)))))
+  end.
+Definition tuple_less (L : list param) (t1 t2 : tuple) : bool :=
+  forallb (tuple_less_one L t1 t2) (seq 0 (length L)).
+
+Section LessContent.
+  Variable L : list param.
+  Hypothesis Hwf : wf_plist L = true.
+  Variables (t1 t2 : tuple) (fc1 fc2 : list Z) (m1 m2 : mem) (a1 a2 : Z).
+  Hypothesis Ht1 : tuple_ok L fc1 0 t1.
+  Hypothesis Ht2 : tuple_ok L fc2 0 t2.
+  Hypothesis He1 : elem_at L m1 a1 t1.
+  Hypothesis He2 : elem_at L m2 a2 t2.
+
+  Theorem elem_less_content :
+    elem_less L m1 (ref_fl L t1 a1) m2 (ref_fl L t2 a2) = tuple_less L t1 t2.
+  Proof.
+    destruct (runs_lex_structure L) as [_ [Hs1 _]].
+    pose proof (runs_tight lxm true false L) as Htight. fold (runs_lex L) in Htight.
+    unfold elem_less, tuple_less. apply forallb_ext_in_. intros k Hk. apply in_seq in Hk.
+    unfold less_one, tuple_less_one. destruct (nth k (runs_lex L) RSkip) as [| |e] eqn:Ek; [reflexivity| |].
+    - rewrite (fld_objs_spec L Hwf m1 a1 t1 fc1 Ht1 He1 k ltac:(lia)).
+      rewrite (fld_objs_spec L Hwf m2 a2 t2 fc2 Ht2 He2 k ltac:(lia)). reflexivity.
+    - destruct (Hs1 _ _ Ek) as [Hb _]. destruct (Htight _ _ Ek) as [Tpad _].
+      rewrite (run_bytes_spec L Hwf m1 a1 t1 fc1 Ht1 He1 k e ltac:(lia))
+        by (intros i Hi; apply Tpad; [exact Hi|reflexivity]).
+      rewrite (run_bytes_spec L Hwf m2 a2 t2 fc2 Ht2 He2 k e ltac:(lia))
+        by (intros i Hi; apply Tpad; [exact Hi|reflexivity]).
+      reflexivity.
+  Qed.
+End LessContent.
+
+(* a == b implies neither a < b nor b < a, wherever and in whatever memory the operands live *)
+Theorem equal_elements_are_not_less L : wf_plist L = true ->
+  forall t1 t2 fc1 fc2 m1 m2 a1 a2,
+  tuple_ok L fc1 0 t1 -> tuple_ok L fc2 0 t2 -> elem_at L m1 a1 t1 -> elem_at L m2 a2 t2 ->
+  elem_equal L m1 (ref_fl L t1 a1) m2 (ref_fl L t2 a2) = true ->
+  elem_less L m1 (ref_fl L t1 a1) m2 (ref_fl L t2 a2) = false /\
+  elem_less L m2 (ref_fl L t2 a2) m1 (ref_fl L t1 a1) = false.
+Proof.
+  intros Hwf t1 t2 fc1 fc2 m1 m2 a1 a2 Ht1 Ht2 He1 He2 Heq.
+  apply (elem_equal_content L Hwf t1 t2 fc1 fc2 Ht1 Ht2 m1 m2 a1 a2 He1 He2) in Heq. subst t2.
+  assert (HL : L <> []) by (apply wf_plist_nonempty; exact Hwf).
+  rewrite (elem_less_content L Hwf t1 t1 fc1 fc2 m1 m2 a1 a2 Ht1 Ht2 He1 He2).
+  rewrite (elem_less_content L Hwf t1 t1 fc2 fc1 m2 m1 a2 a1 Ht2 Ht1 He2 He1).
+  rewrite <- (elem_less_content L Hwf t1 t1 fc1 fc1 m1 m1 a1 a1 Ht1 Ht1 He1 He1).
+  split; apply elem_less_irrefl; exact HL.
+Qed.
